@@ -430,7 +430,7 @@ def check_strict_graphs(ctx, U):
     sample = pairs if ctx.tier == "thorough" and ctx.shard == (0, 1) else rng.sample(pairs, min(len(pairs), 260 if ctx.tier == "quick" else 1500))
     for a, b in sample:
         exp = R(a, b)
-        for nested in (False, True, "renamed-nested-output", "swapped-nested-outputs", "non-first-producer"):
+        for nested in (False, True, "renamed-nested-output", "swapped-nested-outputs", "non-first-producer", "with-ordering-edge"):
             rt.reset_program()
             vname = "val2" if nested == "renamed-nested-output" else "val_b" if nested == "swapped-nested-outputs" else "val"
             prod = rt.make_function("prod", "t/prod", [{"n": "seed", "ann": int}], ret_ann=a)
@@ -459,6 +459,12 @@ def check_strict_graphs(ctx, U):
                         Graph([gn], strict_types=True)
                         gn.get_output_type("val_b")
                     Graph([gn.with_outputs(val="val_b", val_b="val"), c], strict_types=True)
+                elif nested == "with-ordering-edge":
+                    # the typed data edge plus an emit/wait_for edge between the same graph's nodes: the signal
+                    # carries no value and needs no type
+                    pe = FunctionNode(prod, name="prod", output_name="val", emit="made")
+                    w = FunctionNode(rt.make_function("waiter", "t/waiter", [{"n": "other", "ann": int}], ret_ann=int), name="waiter", output_name="w_out", wait_for="made")
+                    Graph([pe, c, w], strict_types=True)
                 elif nested == "non-first-producer":
                     # two exclusive branches produce the value; the one under test is listed second,
                     # the first one has exactly the consumer's type
@@ -484,6 +490,33 @@ def check_strict_graphs(ctx, U):
             ctx.obs["strict_graphs_checked"] += 1
             if got != exp:
                 ctx.violation("C19:strict-graph:" + ("accepted" if got else "rejected") + (":" + nested if isinstance(nested, str) else ""), f"strict_types graph (nested={nested}) with producer type {a!r} and consumer type {b!r} was {'accepted' if got else 'rejected'}; the documented relation says {'compatible' if exp else 'incompatible'}", {"incoming": repr(a), "required": repr(b), "nested": nested})
+    # a nested-graph node MAPPED over a typed parameter: the producer must deliver list[...] of it
+    msample = [(a, b) for a, b in sample if R(a, b) is not None][: (60 if ctx.tier == "quick" else 600)]
+    for a, b in msample:
+        for shape in ("list-of-a", "bare-a"):
+            try:
+                la, lb = list[a], list[b]
+            except TypeError:
+                continue
+            exp = R(la, lb) if shape == "list-of-a" else R(a, lb)
+            if exp is None:
+                continue
+            rt.reset_program()
+            prod = rt.make_function("prod", "t/prod", [{"n": "seed", "ann": int}], ret_ann=(la if shape == "list-of-a" else a))
+            cons = rt.make_function("cons", "t/cons", [{"n": "val", "ann": b}], ret_ann=int)
+            try:
+                inner = Graph([FunctionNode(cons, name="cons", output_name="out")], name="inner_m", strict_types=True)
+                Graph([FunctionNode(prod, name="prod", output_name="val"), inner.as_node().map_over("val")], strict_types=True)
+                got = True
+            except GraphConfigError:
+                got = False
+            except Exception as e:  # noqa: BLE001
+                ctx.violation("C19:strict-wrong-error", f"strict mapped graph {a!r} -> {b!r} raised {e!r}", {"incoming": repr(a), "required": repr(b), "nested": "mapped-" + shape})
+                continue
+            ctx.obs["strict_graphs_checked"] += 1
+            ctx.obs["strict_mapped_checked"] += 1
+            if got != exp:
+                ctx.violation("C19:strict-graph:" + ("accepted" if got else "rejected") + ":mapped-input", f"strict_types graph: producer type {(la if shape == 'list-of-a' else a)!r} feeding a nested-graph node mapped over a parameter of type {b!r} was {'accepted' if got else 'rejected'}; the documented relation on list[...] says {'compatible' if exp else 'incompatible'}", {"incoming": repr(a), "required": repr(b), "nested": "mapped-" + shape})
     # missing annotations
     for missing in ("producer", "consumer"):
         rt.reset_program()
